@@ -94,8 +94,8 @@ pub fn with_stack<C: Conv>(t: &mut dyn Erased<C>, stack: &[Layer], boxes: &mut V
 
 fn apply<C: Col>(t: &mut dyn Erased<C>, op: &Op) -> Result<(), Fault> {
     match op {
-        Op::DrawIter(px) => t.e_draw_iter(&mut px.iter().map(|(p, i)| Pixel(*p, C::nth(*i)))),
-        Op::FillContiguous(area, stream) => t.e_fill_contiguous(area, &mut stream.iter().map(|i| C::nth(*i))),
+        Op::DrawIter(px) => t.e_draw_iter(&mut crate::gen::stream_route(px, px.len() as u32).map(|(p, i)| Pixel(p, C::nth(i)))),
+        Op::FillContiguous(area, stream) => t.e_fill_contiguous(area, &mut crate::gen::stream_route(stream, (stream.len() as u32).wrapping_mul(3).wrapping_add(area.size.height).wrapping_add(area.top_left.x as u32)).map(|i| C::nth(i))),
         Op::FillSolid(area, i) => t.e_fill_solid(area, C::nth(*i)),
         Op::Clear(i) => t.e_clear(C::nth(*i)),
     }
